@@ -1232,5 +1232,5 @@ def search(prop, failure, unit_res, tier):
               for e in findings.load() if e.get('status') == 'open' and e.get('property') == prop)
     f2 = dict(failure)
     if not own:
-        f2['skip_cases'] = findings.open_cases(prop)
+        f2['skip_cases'] = findings.open_cases()
     return g(f2, tier)
